@@ -140,8 +140,8 @@ def cont1_2(ctx: Ctx) -> None:
         else:
             ctx.R.fail("CONT-2", mod, h, f"the handler that contains a fault of `{label}` does not record the exception in {errs}: it would be missing from Stack.error",
                        construct=f"handler of {label}")
-    ctx.R.expect_min("CONT-1", 5)
-    ctx.R.expect_min("CONT-2", 5)
+    ctx.R.expect_min("CONT-1", 3)
+    ctx.R.expect_min("CONT-2", 3)
     # the narrower handler before a broad one must not pre-empt Exception subclasses other than StopIteration
     for t in contains(fn, ast.Try):
         seen_broad = False
@@ -425,7 +425,7 @@ def contw(ctx: Ctx) -> None:
             unknown.append(f"{q}: {norm(c)[:80]} [{key}]")
     if unknown:
         raise AnalysisError("CONT-W: call(s) in the containment scope that are not on the reviewed allowlist; cannot decide whether they may raise: " + "; ".join(unknown))
-    ctx.R.expect_min("CONT-W", 20)
+    ctx.R.expect_min("CONT-W", 10)
 
 
 # ===================================================================== C10
@@ -694,7 +694,26 @@ def eng2(ctx: Ctx) -> None:
     pops = [c for s_ in ins for c in ast.walk(s_) if isinstance(c, ast.Call) and norm(c.func) == "to_unwrap.popleft"]
     loops_in_ins = [x for s_ in ins for x in ast.walk(s_) if isinstance(x, (ast.While, ast.For))]
     if len(pops) == 1 and not loops_in_ins:
-        ctx.R.ok("ENG-2", "insert: exactly one queued copy of next_inner is dropped")
+        # ... unconditionally (as long as the queue is not empty: next_inner is None for the innermost frame).  The stale copy is the
+        # head of the queue whatever its depth: next_inner can be an *outward* sibling of the frame that inserts before it
+        from .opcodes import path_guards_of as _pgo
+        extra = []
+        for g_, pol in _pgo(mod, pops[0], d):
+            for c_ in (list(g_.values) if isinstance(g_, ast.BoolOp) and isinstance(g_.op, ast.And) and pol else [g_]):
+                if nonempty_of(c_) == "to_unwrap" and pol:
+                    continue
+                if c_ is d.test or norm(c_) == norm(d.test):
+                    continue
+                extra.append((c_, pol))
+        depthy = [c_ for c_, _ in extra if "depth" in norm(c_) or "[2]" in norm(c_)]
+        if depthy:
+            ctx.R.fail("ENG-2", mod, pops[0], f"the insert form drops the queued copy of {ninner} only when `{norm(depthy[0])[:60]}`: {ninner} is the head of the queue whatever its depth (the frame that inserts "
+                       "before it may have been reached through more unwrapping layers than what follows it), so for an outward sibling the stale copy stays and that frame is reported twice",
+                       construct="insert branch: popleft conditional on depth")
+        elif extra:
+            ctx.R.undecided("ENG-2", f"the insert form's popleft is under an extra condition `{norm(extra[0][0])[:60]}`")
+        else:
+            ctx.R.ok("ENG-2", "insert: exactly one queued copy of next_inner is dropped")
     else:
         ctx.R.fail("ENG-2", mod, d, f"the insert form must drop exactly one queued copy of {ninner} (it is in both lists); found {len(pops)} popleft call(s)",
                    construct="insert branch popleft")
@@ -1444,7 +1463,7 @@ def opt4(ctx: Ctx) -> None:
                 ctx.R.ok("OPT-4", f"{q}: forwards both options to extract")
             else:
                 ctx.R.fail("OPT-4", mod, c, f"{q} must forward both options unchanged to extract; found {kws}", construct=f"{q}: extract(**{kws})")
-    ctx.R.expect_min("OPT-4", 8)
+    ctx.R.expect_min("OPT-4", 4)
 
 
 def opt56(ctx: Ctx) -> None:
@@ -1825,6 +1844,72 @@ C13 = [opt1, opt2, opt3, opt4, opt56, opt7, ctx_rules]
 C16 = [ori_rules]
 
 
+def truth3(ctx: Ctx) -> None:
+    """TRUTH-3 in the unwrap loop None means "this item cannot be unwrapped: keep it as it is" and an empty sequence / an iterator
+    that yields nothing means "nothing here".  No value that reaches the `... is None` test of the unwrap result is produced by
+    `<result> or None` (or `x if x else None`): that turns the second answer into the first, the item becomes a leaf and the
+    frames after it are never elaborated.  Followed through module-level helpers the result passes through"""
+    mod = _engine_mod(ctx)
+    fn = mod.fn("extract_iter")
+    tests = [c for c in ast.walk(fn) if isinstance(c, ast.Compare) and len(c.ops) == 1 and isinstance(c.ops[0], (ast.Is, ast.IsNot)) and isinstance(c.left, ast.Name)
+             and isinstance(c.comparators[0], ast.Constant) and c.comparators[0].value is None]
+    uw = [norm(s_.targets[0]) for s_ in ast.walk(fn) if isinstance(s_, ast.Assign) and len(s_.targets) == 1 and isinstance(s_.value, ast.Call) and isinstance(s_.value.func, ast.Name) and s_.value.func.id == "unwrap_stackitem"]
+    names = {c.left.id for c in tests} & set(uw)
+    if not names:
+        ctx.R.undecided("TRUTH-3", "the `is None` test of the unwrap result was not found")
+        return
+
+    def falsy_to_none(e: ast.AST) -> bool:
+        if isinstance(e, ast.BoolOp) and isinstance(e.op, ast.Or) and isinstance(e.values[-1], ast.Constant) and e.values[-1].value is None:
+            return True
+        if isinstance(e, ast.IfExp) and isinstance(e.orelse, ast.Constant) and e.orelse.value is None and norm(e.test) in (norm(e.body), f"len({norm(e.body)})", f"bool({norm(e.body)})"):
+            return True
+        if isinstance(e, ast.IfExp) and isinstance(e.body, ast.Constant) and e.body.value is None and norm(e.test) == f"not {norm(e.orelse)}":
+            return True
+        return False
+
+    n = 0
+    for nm in names:
+        for a in ast.walk(fn):
+            if isinstance(a, ast.Assign) and len(a.targets) == 1 and norm(a.targets[0]) == nm:
+                n += 1
+                vals = [(a.value, fn)]
+                if isinstance(a.value, ast.Call) and isinstance(a.value.func, ast.Name) and mod.has(a.value.func.id) and isinstance(mod.defs.get(a.value.func.id), ast.FunctionDef) \
+                        and a.value.func.id not in ("unwrap_stackitem", "elaborate_frame"):
+                    h = mod.defs[a.value.func.id]
+                    vals = [(r.value, h) for r in walk_scope(h) if isinstance(r, ast.Return) and r.value is not None]
+                for v, where in vals:
+                    if falsy_to_none(v):
+                        ctx.R.fail("TRUTH-3", mod, v, f"`{norm(v)[:60]}` feeds the unwrap result `{nm}`: an empty sequence (or an iterator that yields nothing) means \"nothing here\", None means \"cannot be unwrapped\"; "
+                                   "turning the former into the latter makes the item a leaf and leaves the frames that follow it un-elaborated", construct=f"empty unwrap result turned into None")
+    ctx.R.ok("TRUTH-3", f"{n} assignments to the unwrap result {sorted(names)}", "none maps an empty result to None")
+
+
+def eng7(ctx: Ctx) -> None:
+    """ENG-7 looking at a frame's context managers never changes the frame series: a failure of contexts_active_in_frame /
+    fill_context is recorded (appended to the error list) and nothing else -- in particular it does not set the frame's
+    replacement to PRUNE, un-hide it or skip its elaboration -- so extract(x, with_contexts=False) and extract(x,
+    with_contexts=True) list the same frames whatever the context inspection does"""
+    mod = _engine_mod(ctx)
+    fn = mod.fn("extract_iter")
+    tries = [t for t in walk_scope(fn) if isinstance(t, ast.Try) and any(isinstance(c, ast.Call) and isinstance(c.func, ast.Name) and c.func.id in ("contexts_active_in_frame", "fill_context")
+                                                                        for st in t.body for c in ast.walk(st))]
+    if not tries:
+        ctx.R.undecided("ENG-7", "no try around the context inspection found in extract_iter")
+        return
+    for t in tries:
+        for h in t.handlers:
+            eff = [n for st in h.body for n in ast.walk(st) if (isinstance(n, ast.Assign) and any(norm(x) in ("replacement", "frame.hide", "frame.hide_line") for x in n.targets))
+                   or (isinstance(n, ast.Name) and n.id == "PRUNE") or isinstance(n, (ast.Return, ast.Break))]
+            if eff:
+                ctx.R.fail("ENG-7", mod, eff[0], f"a failure while inspecting a frame's context managers is handled by `{norm(_stmt(mod, eff[0]))[:60]}`: the frame series then depends on with_contexts "
+                           "(everything inward of that frame is pruned / the frame is treated differently only when contexts are requested)", construct="context-inspection handler changes the frame series")
+            elif not any(isinstance(n, ast.Call) and isinstance(n.func, ast.Attribute) and n.func.attr == "append" for st in h.body for n in ast.walk(st)):
+                ctx.R.undecided("ENG-7", "a context-inspection handler does not append to the error list")
+            else:
+                ctx.R.ok("ENG-7", f"context-inspection failure at line {h.lineno}: recorded only")
+
+
 def eng5(ctx: Ctx) -> None:
     """ENG-5 a frame is handed to the consumer only after elaborate_frame has run for it: in the main loop of extract_iter the
     elaborate_frame call is on every path to `yield frame` (extract_outermost takes one frame and never resumes the generator,
@@ -2154,6 +2239,51 @@ def asend1(ctx: Ctx) -> None:
             ctx.R.undecided("ASEND-1", f"{q}: cannot tell which referent with ag_frame is selected")
 
 
+def asend2(ctx: Ctx) -> None:
+    """ASEND-2 the awaitables of an async generator are followed for every way of driving it.  FACTS (asend_referents): asend() and
+    __anext__() return one type (async_generator_asend), athrow() and aclose() another (async_generator_athrow), on every supported
+    interpreter.  The function that follows such an awaitable to its generator is registered with unwrap_stackitem for a type
+    taken from an asend()/__anext__() probe *and* for one taken from an athrow()/aclose() probe; with only one of them a chain
+    suspended inside `await agen.aclose()` / `athrow()` (resp. `asend()` / `async for`) stops at the awaitable"""
+    mod = ctx.P.mod("_glue")
+    kinds = {v: (ctx.F["interp"][v]["asend_referents"]["asend_type"], ctx.F["interp"][v]["asend_referents"]["athrow_type"], ctx.F["interp"][v]["asend_referents"]["aclose_type"],
+                 ctx.F["interp"][v]["asend_referents"]["anext_type"]) for v in ctx.V.all}
+    if not all(k[0] != k[1] and k[2] == k[1] and k[3] == k[0] for k in kinds.values()):
+        raise AnalysisError(f"ASEND-2: the facts no longer say asend/anext and athrow/aclose awaitables are two types: {kinds}")
+    cands = [(q, fn) for q, fn in mod.defs.items() if isinstance(fn, ast.FunctionDef) and any(isinstance(c, ast.Constant) and c.value == "ag_frame" for c in ast.walk(fn))
+             and any(norm(c.func) == "gc.get_referents" for c in calls_in(fn, scope_only=True))]
+    if not cands:
+        raise AnalysisError("ASEND-2: no function selects the referent with ag_frame")
+    for q, fn in cands:
+        outer = mod.enclosing_def(fn) or mod.tree
+        # names bound to type(<agen>.<method>(...)) in the enclosing scope
+        probes: Dict[str, str] = {}
+        for a in ast.walk(outer):
+            if isinstance(a, ast.Assign) and len(a.targets) == 1 and isinstance(a.targets[0], ast.Name) and isinstance(a.value, ast.Call) and norm(a.value.func) == "type" and a.value.args \
+                    and isinstance(a.value.args[0], ast.Call) and isinstance(a.value.args[0].func, ast.Attribute) and a.value.args[0].func.attr in ("asend", "athrow", "aclose", "__anext__"):
+                probes[a.targets[0].id] = "send" if a.value.args[0].func.attr in ("asend", "__anext__") else "throw"
+        regs = []
+        for d in fn.decorator_list:
+            if isinstance(d, ast.Call) and isinstance(d.func, ast.Attribute) and d.func.attr == "register" and norm(d.func.value) == "unwrap_stackitem" and d.args:
+                regs.append(norm(d.args[0]))
+        for c in ast.walk(outer):
+            if isinstance(c, ast.Call) and isinstance(c.func, ast.Attribute) and c.func.attr == "register" and norm(c.func.value) == "unwrap_stackitem" and len(c.args) >= 2 and norm(c.args[-1]) == fn.name:
+                regs.extend(norm(a_) for a_ in c.args[:-1])
+        got = {probes.get(r) for r in regs}
+        unknown = [r for r in regs if r not in probes]
+        if unknown:
+            ctx.R.undecided("ASEND-2", f"{q} is registered for `{unknown[0]}`, which is not a type taken from an asend/athrow/aclose/__anext__ probe")
+        elif {"send", "throw"} <= got:
+            ctx.R.ok("ASEND-2", f"_glue.{q}: registered for {sorted(regs)}", "both awaitable types (FACTS: asend/__anext__ vs athrow/aclose)")
+        elif got:
+            missing = "athrow() / aclose()" if "throw" not in got else "asend() / __anext__() (also `async for`)"
+            ctx.R.fail("ASEND-2", mod, fn, f"{q} is registered only for {sorted(regs)}: the awaitables returned by {missing} have a different type on every supported interpreter (FACTS), so a chain suspended "
+                       f"inside `await agen.{'aclose()' if 'throw' not in got else 'asend(v)'}` stops at the awaitable: the generator's frames and everything inward are missing and the awaitable is reported as the leaf, "
+                       "with no error", construct=f"{q}: not registered for the {'athrow' if 'throw' not in got else 'asend'} awaitable type")
+        else:
+            ctx.R.undecided("ASEND-2", f"no unwrap_stackitem registration of {q} found")
+
+
 def sig1(ctx: Ctx) -> None:
     """SIG-1 every function registered for a hook takes the number of positional arguments the engine calls that hook with
     (unwrap_stackitem: 1; elaborate_frame / elaborate_context / unwrap_context / unwrap_context_generator: 2), and every call of
@@ -2189,6 +2319,6 @@ def sig1(ctx: Ctx) -> None:
         raise AnalysisError(f"SIG-1: only {n} hook registrations / calls found (>= 25 confirmed by hand)")
 
 
-C10 = C10 + [sig1, eng5, truth1]
+C10 = C10 + [sig1, eng5, truth1, truth3]
 C05 = C05 + [err1, truth2]
 C11 = C11 + [sig1]
